@@ -132,6 +132,17 @@ Definition resolveEuler (degree : bool) (seq : list ascii) (euler : vec3 T) : op
   | _ => None
   end.
 
+(* ---- mjCJoint::Compile: angle-valued joint attributes under compiler.degree.
+   joint types as mjtJoint: 0 free, 1 ball, 2 slide, 3 hinge.  range is converted for limited hinge and ball joints
+   (each end only if non-zero, multiplied by mjPI/180.0), ref and springref for hinge joints; slide joints (lengths) and
+   free joints are never converted *)
+Definition degFactor : T := npi / n180.
+Definition convNonzero (x : T) : T := if x =? nzero then x else x * degFactor.
+Definition jointRange (degree : bool) (jtype : Z) (limited : bool) (r : T * T) : T * T :=
+  if limited && degree && ((jtype =? 3)%Z || (jtype =? 1)%Z) then (convNonzero (fst r), convNonzero (snd r)) else r.
+Definition jointRef (degree : bool) (jtype : Z) (x : T) : T :=
+  if degree && (jtype =? 3)%Z then x * degFactor else x.
+
 End Trans.
 
 (* ------------------------------------------------------------------------------------------ *)
